@@ -69,6 +69,20 @@ def run(ctx, replay=None):
     for i in range(passes):
         ctx.drv(["c17", "exec"] + cfiles + ["--out", tf], timeout=900)
         lines = judge(ctx, tla, tf, "case")
+    # bodies of other types than string (nil / empty slices and maps): exactly the given body goes through the serializer
+    bf = os.path.join(ctx.scratch, "c17.body.ndjson")
+    ctx.drv(["c17", "bodykinds", "--out", bf], timeout=300)
+    rb = ctx.tlc("Trace_SimpleAPIBody", workers=1, timeout=300, cwd=tla, env_extra={"VERIF_TRACE": bf})
+    consb = rb.printed("CONSUMED")
+    if not consb:
+        core.log(rb.text[-2000:])
+        raise core.Inconclusive("Trace_SimpleAPIBody did not finish")
+    rowsb = core.read_ndjson(bf)
+    ctx.cov["evaluations"] += len(rowsb)
+    for x in rb.printed("MISMATCH"):
+        e = rowsb[int(x.split(",")[0]) - 1]
+        ctx.report("%s body kind=%s calls=%d" % (e["ctor"], e["kind"], e["calls"]), "%s with a %s body: the serializer was called %d time(s) with %s and the request body was %r (expected the serializer's output for the given body)" % (
+            e["ctor"], e["kind"], e["calls"], e["seen"], e["body"]), {"component": "c17-body", "run": e})
     ctx.cov["cases_generated_by_tlc"] = ncases
     ctx.cov["distinct_nontrivial"] = ncases - 300
     ctx.sample(lines[len(lines) // 2])
